@@ -43,6 +43,10 @@ type Task struct {
 	// in which goroutines woken in the same step happen to arrive
 	rawArg    string
 	needCanon bool
+
+	// spinTried: parked at lock.spin and already retried since the last
+	// step (see Wait)
+	spinTried bool
 }
 
 // Action is something the scheduler can choose to do next.
@@ -127,6 +131,7 @@ var mandatory = map[string]bool{
 	"serve.wait":           true,
 	"conn.callback":        true,
 	"keylock.wake":         true,
+	"lock.spin":            true, // a mutex that was not free: parks until released (cmd/autoyield)
 	"tq.wake":              true, // waiters of a full task queue, all woken by one pop
 	"updateIndex.start":    true,
 	"handleChange.afterDo": true,
@@ -246,6 +251,9 @@ func (s *Sim) Yield(point, arg string) {
 	}
 	if s.Observer != nil {
 		s.Observer(point, arg)
+	}
+	if point == "lock.spin" {
+		s.Probe("a mutex was not free: the goroutine parked until it was (lock.spin " + arg + ")")
 	}
 	if !s.IsEnabled(point) {
 		return
@@ -510,6 +518,9 @@ func (s *Sim) Pick(acts []Action) Action {
 func (s *Sim) Enabled(filter Filter) []Action {
 	var acts []Action
 	for _, t := range s.Parked() {
+		if t.Point == "lock.spin" {
+			continue // retried by Wait, never a choice of the tape
+		}
 		if filter != nil && !filter(t) {
 			continue
 		}
@@ -528,6 +539,9 @@ func (s *Sim) Enabled(filter Filter) []Action {
 
 // Perform executes the action and waits for the system to settle.
 func (s *Sim) Perform(a Action) {
+	raceDisable()
+	s.spinRetry()
+	raceEnable()
 	if a.task != nil {
 		t := a.task
 		// name is assigned in release; compute label after.
@@ -548,10 +562,64 @@ func (s *Sim) Perform(a Action) {
 func (s *Sim) Stop() { s.stopped.Store(true) }
 
 // Wait blocks until every other goroutine of the bubble is durably blocked.
+//
+// A goroutine parked at "lock.spin" found a mutex taken (cmd/autoyield turns
+// lock statements into try-lock loops around that yield point). Mostly the
+// holder is a goroutine that was running at the same moment and gives the
+// mutex up before it blocks - the worker that calls wg.Done() and then
+// unlocks, while Shutdown, woken by the Done, already asks for the lock -,
+// and whether the attempt failed is then a matter of real timing. Such parks
+// must not show in the schedule: once everything has settled each of them is
+// let go again, silently (no step, no tape, no trace entry), in canonical
+// order; a goroutine whose mutex is held by a parked task comes back to
+// lock.spin and is tried again after the next step.
+//
+//go:norace
 func (s *Sim) Wait() {
 	raceDisable()
 	synctest.Wait()
+	for {
+		var sp *Task
+		for _, t := range s.parkedTasks() {
+			if t.Point == "lock.spin" && !t.spinTried {
+				sp = t
+				break
+			}
+		}
+		if sp == nil {
+			break
+		}
+		s.mu.Lock()
+		sp.spinTried = true
+		sp.parked = false
+		site := sp.Arg
+		s.mu.Unlock()
+		sp.gate <- struct{}{}
+		synctest.Wait()
+		s.mu.Lock()
+		if !(sp.parked && !sp.done && sp.Point == "lock.spin" && sp.Arg == site) {
+			// it got its mutex and went on, perhaps giving up another
+			// one that a goroutine tried before it is waiting for:
+			// everybody may try again
+			for i := 0; i < s.ntasks; i++ {
+				s.tasks[i].spinTried = false
+			}
+		}
+		s.mu.Unlock()
+	}
 	raceEnable()
+}
+
+// spinRetry lets the goroutines waiting at lock.spin try again after the
+// next step.
+//
+//go:norace
+func (s *Sim) spinRetry() {
+	s.mu.Lock()
+	for i := 0; i < s.ntasks; i++ {
+		s.tasks[i].spinTried = false
+	}
+	s.mu.Unlock()
 }
 
 // TaskAction returns the action releasing the parked task t.
